@@ -111,20 +111,16 @@ def v1(ctx, rep, T):
 
 def v2(ctx, rep):
     ver, syms = serde_symbols(ctx)
+    # every (namespace, name) pair an attribute look-up of parser.rs depends on, from the look-up summaries (helpers and
+    # parameters resolved per call site): names looked up under #[serde(..)] must be attribute names serde_derive knows
     names = []
+    seen_pairs = set()
     for f in ctx.fns(file='parser.rs'):
-        for c in f['calls']:
-            if c.get('f') in ('get_name_value_meta_items', 'serde_attr'):
-                args = [vt.strip(a) for a in c.get('args', [])]
-                is_serde = c['f'] == 'serde_attr' or any(isinstance(a, dict) and a.get('k') == 'path' and a.get('text') == 'SERDE' for a in args)
-                for a in args:
-                    if is_serde and isinstance(a, dict) and a.get('k') == 'lit' and a.get('t') == 'str':
-                        names.append((a['v'], f, c))
-    # is_skipped: bare `skip`
-    sk = ctx.fn('is_skipped', file='parser.rs')
-    for l in vt.lits(sk['tail']) + [x for l2 in sk['lets'] for x in vt.lits(l2.get('v'))]:
-        if l.get('t') == 'str':
-            names.append((l['v'], sk, {'line': sk['line']}))
+        closed, _open = pr.lookup_closed(ctx, f['name'])
+        for ns, nm, kind in sorted(closed):
+            if ns == 'SERDE' and (f['name'], nm) not in seen_pairs:
+                seen_pairs.add((f['name'], nm))
+                names.append((nm, f, {'line': f['line']}))
     rep.floor('V2', 'serde attribute names looked up', len(names), 7)
     for n, f, c in names:
         rep.check(n in syms, 'V2', f"{f['name']}:{n}", f'`{n}` is a serde_derive {ver} attribute symbol', f"{f['name']} looks for `{n}` under #[serde(..)], which is not an attribute name of serde_derive {ver} — the attribute the user writes for serde can never match", {'file': f['file'], 'line': c.get('line')})
@@ -240,8 +236,12 @@ def printers(ctx, rep, T):
         for facet, need in FACETS[be].items():
             have = key_sites[facet]
             rep.check(len(have) >= need, 'V4', f'{be}:{facet}-key-sites', f'{len(have)} site(s) fed by the serde {facet} key', f"{be}: {len(have)} template position(s) are fed by the serde {facet} key, the {be} encoding needs at least {need} (declaration, decoder, encoder …)", {'file': file, 'line': 0})
+            raw_in_fn = {g2['qual'] for g2, s2, c2, seq2, ix2 in have if not [v for v in c2[2] if v not in ('to_string', 'clone', 'as_str', 'to_owned')]}
             for g, s, c, seq, ix in have:
-                lossy = [v for v in c[2] if v not in ('to_string',)]
+                lossy = [v for v in c[2] if v not in ('to_string', 'clone', 'as_str', 'to_owned')]
+                if lossy and not string_position(seq, ix) and g['qual'] not in raw_in_fn:
+                    # a transformed key (identifier position) is only harmless next to the raw key that carries the wire name
+                    rep.fail('V4', f"{be}:{g['name']}:{facet}-key-only-transformed", f"{be}: {g['qual']} writes the serde {facet} key only through {lossy} and nowhere as it is: whenever the transform changes the text (camelCase / capitalised / keyword / digit keys) the generated type reads and writes a different JSON key than serde", {'file': g['file'], 'line': s['line']})
                 if string_position(seq, ix) and lossy:
                     rep.fail('V4', f"{be}:{g['name']}:{facet}-key-transformed", f"{be}: {g['qual']} writes the {facet} key into a string position through {lossy}", {'file': g['file'], 'line': s['line']})
         v6(ctx, rep, T, be, fns)
